@@ -34,6 +34,17 @@ PROPS = {
         "harnesses": [{"name": "rcu", "quick": 480000, "thorough": 6000000, "fuzz_runs": 600000}],
         "assumptions": [SC, RCU_ASSUME],
     },
+    "C08": {
+        "harnesses": [{"name": "segq", "quick": 400000, "thorough": 4000000, "fuzz_runs": 400000}],
+        "assumptions": [SC, "Oracle: history invariants in their conservative reading (conservation, quasi-factor bound with q.quasi_factor(), emptiness rule), final drain/clear by main, per-node disposer accounting for the intrusive variants; deterministic permutation generators replace the random one through the documented trait."],
+    },
+    "C25": {
+        "harnesses": [{"name": "pure_bits", "quick": 160000, "thorough": 2400000, "fuzz_runs": 0,
+                       "extra": {"quick": [["bytes"]] + [["rev32s", i, 16, 16] for i in range(16)],
+                                 "thorough": [["bytes"]] + [["rev32", i, 16] for i in range(16)]}}],
+        "assumptions": ["Pure functions, no scheduler. Oracle: naive bit-loop reference implementations, involution, cross-agreement of swar/lookup/muldiv, generic and amd64 bitop paths, reference cursor over the little-endian byte image for the splitters (source placed at the end of a heap block, ASan/UBSan on).",
+                        "64-bit variants are sampled (structured + random), 32-bit variants are enumerated by the rev32/rev32s extra jobs."],
+    },
     "C06": {
         "harnesses": [
             {"name": "queue_ms", "quick": 160000, "thorough": 2400000, "fuzz_runs": 800000, "weight": 3},
@@ -54,6 +65,11 @@ _RCU_TEXT = ("Bounded exploration of generated reader/writer programs (nested re
              "schedules for all four flavours incl. the reclamation thread and simulated signal delivery; held on every case explored.")
 
 MANIFEST_TEXT = {
+    "C08": {"text": "Bounded exploration of generated enqueue/dequeue programs x schedules for SegmentedQueue (container + intrusive, HP + DHP, quasi factors 2..8 incl. non powers of two, three deterministic permutation generators); every history is checked against the statement's three invariants in their conservative reading; held on every case explored.",
+            "note": _SCHED_NOTE, "technique": "schedule-controlled property-based testing (rapidcheck + libFuzzer) with history-invariant oracles"},
+    "C25": {"text": "Generated inputs (structured + random 64-bit values, cut-width sequences over 1..20-byte sources) plus complete enumeration of all 2^32 inputs of the 32-bit variants (thorough tier; stratified 2^24 sample in the quick tier) and of all byte/16-bit values for the table helpers, against naive reference implementations; held on every input explored.",
+            "note": "Trusted base: the naive reference implementations in h/pure_bits_ref.h, ASan/UBSan, rapidcheck. 64-bit overloads are not enumerated.",
+            "technique": "property-based testing (rapidcheck) and exhaustive enumeration of the 32-bit sub-domain against reference implementations"},
     "C01": {"text": _SMR_TEXT + " Variants: HP in-place and classic scan, odd and even addresses.", "note": _SCHED_NOTE,
             "technique": "schedule-controlled property-based testing (rapidcheck + libFuzzer) with a guard-bookkeeping / poisoning oracle"},
     "C02": {"text": _SMR_TEXT + " Variant: DHP with small initial guard counts, extension blocks and multi-block retired lists.", "note": _SCHED_NOTE,
